@@ -97,6 +97,60 @@ Theorem C18_cache_wf_kept : forall outcome p st, NoDup (map fst (js_src st)) -> 
 Proof. exact cache_wf_jobmap. Qed.
 Print Assumptions C18_cache_wf_kept.
 
+(* ---- "the items whose commands succeeded": an execution has a LIST of commands (named or not).  It counts as a
+   success exactly when every command succeeded and the return file was produced; a failing command at any position,
+   named or not, makes it a failure whatever the later commands would have done; and that summary is what the
+   run_local model of C17 (Model/Job.v, tied to runner.py by C17's runs) leaves in the output file jobmap reads. *)
+Theorem C18_commands_succeed_iff : forall l file,
+  run_cmds file l = OSucceed <->
+  (forall c, In c l -> cs_code c = None) /\ (file = true \/ exists c, In c l /\ cs_write c = true).
+Proof. exact run_cmds_succeed_iff. Qed.
+Print Assumptions C18_commands_succeed_iff.
+
+Theorem C18_commands_stop_at_failure : forall file a c k b, (forall x, In x a -> cs_code x = None) -> cs_code c = Some k ->
+  forall b', run_cmds file (a ++ c :: b) = run_cmds file (a ++ c :: b').
+Proof. exact run_cmds_stops. Qed.
+
+Theorem C18_commands_naming_irrelevant : forall l file, run_cmds file (map unname l) = run_cmds file l.
+Proof. exact run_cmds_naming_irrelevant. Qed.
+
+Theorem C18_commands_run_local : forall rf payload hash base (inp : jobinput cstep) arg n,
+  ji_cmds inp <> [] -> ji_ret inp = Some [rf] -> NoDup (cmd_names (ji_cmds inp)) -> rf_free rf (ji_cmds inp) ->
+  let k := run_cmds (dhas rf (materialise (ji_files inp))) (map fst (ji_cmds inp)) in
+  exists st out, fst (body cstep (step_exec rf payload) hash base inp) = Done st out
+                 /\ jo_exitcode out = o_code (out_of arg k n)
+                 /\ dhas rf (jo_files out) = o_file (out_of arg k n)
+                 /\ jo_hash out = hash inp
+                 /\ (st = 0%Z <-> k = OSucceed).
+Proof. exact run_cmds_refines_run_local. Qed.
+Print Assumptions C18_commands_run_local.
+
+(* an item one of whose commands failed in this run is not in the destination afterwards and is executed again by the
+   next run with these arguments ("a failed run is not reused") *)
+Theorem C18_failed_command_not_stored : forall script p st kl nm c,
+  NoDup (map fst (js_src st)) -> NoDup (all_names p st) ->
+  In kl (js_src st) -> In nm (names p kl) -> In nm (runlist p st) ->
+  In c (script nm (cnt st nm)) -> cs_code c <> None ->
+  let st' := jobmap (cmd_outcome script) p st in
+  dget (fst kl) (js_dst st') = None /\ In nm (runlist p st').
+Proof. exact failed_command_not_stored. Qed.
+Print Assumptions C18_failed_command_not_stored.
+
+(* hypotheses satisfiable: two commands, the unnamed first one fails, the named second one would write the return file *)
+Example C18_commands_nonvacuous :
+  let cs := [(mk_cs false false (Some 3%positive), None); (mk_cs true true None, Some "c1")] in
+  let inp := mk_ji "b" cs None (Some ["o.txt"]) None in
+  NoDup (cmd_names cs) /\ rf_free "o.txt" cs
+  /\ run_cmds false (map fst cs) = OFail 3%positive
+  /\ fst (body cstep (step_exec "o.txt" "x") (fun _ => "h") [] inp) = Done 1 (mk_jo [] [] 3 [] "h")
+  /\ run_cmds false (map fst (rev cs)) = OFailFile 3%positive.
+Proof.
+  cbv zeta. repeat split; try reflexivity.
+  - repeat constructor; simpl; intuition discriminate.
+  - destruct H as [<-|[<-|[]]]; simpl in H0; [discriminate|]. injection H0 as <-. discriminate.
+  - destruct H as [<-|[<-|[]]]; simpl in H0; [discriminate|]. injection H0 as <-. discriminate.
+Qed.
+
 (* the name hypotheses follow from distinct source keys *)
 Theorem C18_names_distinct_single : forall st arg strict,
   NoDup (map fst (js_src st)) -> NoDup (all_names (mk_jp arg strict false) st).
@@ -112,7 +166,8 @@ Print Assumptions C18_names_distinct_vectorised.
 (* ---- non-vacuity: a vectorised library, one pre-populated key, a destination-only key, a stale and a damaged cache
    entry; b.1 fails once.  Run 1 executes a.0, a.1, b.0, b.1 (not c, not zz), stores a; run 2 executes only b.1 and
    stores b; run 3 executes nothing. *)
-Definition ex_plans : list (string * list okind) := [("b.1", [OFail 3%positive])].
+Definition ex_plans : list (string * list (list cstep)) :=
+  [("b.1", [[mk_cs false false (Some 3%positive); mk_cs true true None]])].   (* unnamed command fails, the named one after it would write *)
 Definition ex_state : jstate :=
   mk_js [("a", 2%nat); ("b", 2%nat); ("c", 1%nat)] [("c", [("pre", 9%N)]); ("zz", [("pre", 1%N)])]
         [("a.0", COut (mk_out "B" 0 true 5%N)); ("b.0", CCorrupt); ("c.0", COut (mk_out "A" 7 false 0%N))] [("a.0", 6%N)].
